@@ -2,7 +2,7 @@
 """usage: seed_keep.py <Cxx> <a|b> <demo dest relative to repo> <pkg> "<needs>"  -- copies a confirmed seeded change into /verif/seeded/<Cxx>-<v>/"""
 import json, os, shutil, sys, subprocess
 prop, v, dest, pkg, needs = sys.argv[1:6]
-src = "/tmp/seed/out-%s/%s" % (prop, v)
+src = (os.environ.get("SEED_SRC_PREFIX") or "/tmp/seed/out-") + "%s/%s" % (prop, v)
 dst = "/verif/seeded/%s-%s" % (prop, v)
 os.makedirs(dst, exist_ok=True)
 for f in ("patch.diff", "demo_test.go", "notes.md"):
